@@ -1195,3 +1195,391 @@ Proof.
     + eexists. split; [reflexivity|]. split; [eapply same_sessions_inv; [|exact SI]; repeat split|].
       split; [exact I|]. repeat (split; [reflexivity|]). split; [repeat split|]. split; reflexivity.
 Qed.
+
+(* ================================================================ J. steps *)
+Section Steps.
+  Variable orc : oracles.
+  Variable clock : Z.
+
+  Lemma frame_set_child_value g s c vt v mt a g' :
+    set_child_value orc g s c vt v mt a = Ok g' -> frame g g'.
+  Proof.
+    unfold set_child_value.
+    destruct (is_sensor g s (Some c)) as [[g1 b]|e] eqn:E; cbn [bind]; [|discriminate].
+    pose proof (frame_is_sensor _ _ _ _ _ E) as F1.
+    destruct b; cbn [negb]; [|intro H; inversion H; subst; exact F1].
+    destruct (get_node g1 s) as [nd|] eqn:G; [|discriminate].
+    destruct (sleeping nd).
+    - destruct (create_set_message orc g1 (n_id nd) c vt v None None); cbn [bind]; [|discriminate].
+      destruct (zassoc c (n_new nd)) as [dv|]; [|discriminate].
+      destruct (validate_child_state orc nd c vt v); cbn [bind]; [|discriminate].
+      destruct (vt_int vt) as [vti|]; [|discriminate].
+      intro H; inversion H; subst. eapply frame_trans; [exact F1|].
+      eapply frame_put; [exact G|reflexivity|reflexivity].
+    - destruct (create_set_message orc g1 (n_id nd) c vt v mt a); cbn [bind]; [|discriminate].
+      intro H; inversion H; subst. eapply frame_trans; [exact F1|apply frame_add_job].
+  Qed.
+
+  (* the line the dispatcher is run on by a step, and the state it is run in *)
+  Definition line_of (g : gw) (o : op) : option pstr :=
+    match o with
+    | Recv l => if cf_async (g_cf g) then Some l else None
+    | Pump => match g_jobs g with JLogic l :: _ => Some l | _ => None end
+    | _ => None
+    end.
+  Definition pre_state (g : gw) (o : op) : gw :=
+    match o with Pump => set_jobs g (tl (g_jobs g)) | _ => g end.
+
+  Lemma pre_state_frame g o : frame g (pre_state g o) /\ g_sensors (pre_state g o) = g_sensors g.
+  Proof. destruct o; cbn [pre_state]; split; try apply frame_refl; try apply frame_set_jobs; reflexivity. Qed.
+
+  Lemma step_line g o l : line_of g o = Some l ->
+    step orc clock g o =
+      match logic orc clock (pre_state g o) l with
+      | Ok (g1, Some r) => send g1 r
+      | Ok (g1, None) => g1
+      | Raise e => emit (pre_state g o) (ERaise e)
+      end.
+  Proof.
+    destruct o as [l0| |s c vt v mt a|ns t v b|b]; cbn [line_of pre_state step]; try discriminate.
+    - unfold recv. destruct (cf_async (g_cf g)); [|discriminate]. intro H; inversion H; subst. reflexivity.
+    - unfold pump. destruct (g_jobs g) as [|[l0|l0] r]; try discriminate. intro H; inversion H; subst. reflexivity.
+  Qed.
+
+  Lemma step_noline g o : line_of g o = None -> (forall ns t v b, o <> UpdateFw ns t v b) ->
+    frame g (step orc clock g o).
+  Proof.
+    destruct o as [l0| |s c vt v mt a|ns t v b|b]; cbn [line_of step]; intros L NU.
+    - unfold recv. destruct (cf_async (g_cf g)); [discriminate|apply frame_set_jobs].
+    - unfold pump. destruct (g_jobs g) as [|[l0|l0] r]; [apply frame_refl|discriminate|].
+      eapply frame_trans; [apply frame_set_jobs|apply frame_send].
+    - destruct (set_child_value orc g s c vt v mt a) eqn:E; [eapply frame_set_child_value; exact E|apply frame_emit].
+    - exfalso. eapply NU. reflexivity.
+    - apply frame_set_metric.
+  Qed.
+
+  (* C10's state invariant *)
+  Definition SInv (g : gw) : Prop := sess_inv (g_ota g) /\ ids_ok g.
+
+  Lemma SInv_init cf : SInv (gw_init cf).
+  Proof. split; [apply sess_inv_init|apply ids_ok_init]. Qed.
+
+  Lemma SInv_frame g g' : frame g g' -> SInv g -> SInv g'.
+  Proof. intros (O & _ & _ & F) [S I]. split; [rewrite O; exact S|apply F; exact I]. Qed.
+
+  (* how one step may move the session of node n *)
+  Inductive moved (g : gw) (o : op) (n : Z) (s s' : session) : Prop :=
+  | mv_request : forall i, is_update i = false -> s' = fst (sstep s i) -> moved g o n s s'
+  | mv_update : forall ns tt vv bin k,
+      o = UpdateFw ns tt vv bin -> update_key g tt vv bin = Some k -> zmem n ns = true -> known g n = true ->
+      s' = Requested k -> moved g o n s s'.
+
+  Lemma moved_same g o n s : moved g o n s s.
+  Proof. apply (mv_request g o n s s Malformed); reflexivity. Qed.
+
+  Lemma stream_input_not_update m i : stream_input m = Some i -> is_update i = false.
+  Proof.
+    unfold stream_input, cfg_input, blk_input.
+    destruct (m_sub m =? 0).
+    - intro H; inversion H. destruct (fw_hex_to_int (m_payload m) 5); reflexivity.
+    - destruct (m_sub m =? 2); [|discriminate]. intro H; inversion H.
+      destruct (fw_hex_to_int (m_payload m) 3) as [[|a [|b [|c [|d e]]]]|]; reflexivity.
+  Qed.
+
+  (* the dispatcher on any line: invariant kept; each session moves by a non-update input *)
+  Lemma logic_weak g l g1 r : cfg_ok (g_cf g) -> SInv g -> logic orc clock g l = Ok (g1, r) ->
+    SInv g1 /\ g_cf g1 = g_cf g /\ (forall n, known g n = true -> known g1 n = true) /\
+    o_fw (g_ota g1) = o_fw (g_ota g) /\
+    forall n, exists i, is_update i = false /\ abs (g_ota g1) n = fst (sstep (abs (g_ota g) n) i).
+  Proof.
+    intros C [S I] E.
+    assert (SAME : forall g', frame g g' -> SInv g' /\ g_cf g' = g_cf g /\
+              (forall n, known g n = true -> known g' n = true) /\
+              o_fw (g_ota g') = o_fw (g_ota g) /\
+              forall n, exists i, is_update i = false /\ abs (g_ota g') n = fst (sstep (abs (g_ota g) n) i)).
+    { intros g' F. split; [eapply SInv_frame; [exact F|split; assumption]|].
+      destruct F as (O & CF & K & _). split; [exact CF|]. split; [exact K|]. split; [rewrite O; reflexivity|].
+      intro n. exists Malformed. rewrite O. split; reflexivity. }
+    destruct (decode l) as [m|] eqn:D.
+    2:{ rewrite (rejected_is_noop orc clock g l (or_introl D)) in E. inversion E; subst. apply SAME, frame_refl. }
+    destruct (gvalidate orc g m) eqn:V.
+    2:{ rewrite (rejected_is_noop orc clock g l) in E by (right; exists m; auto).
+        inversion E; subst. apply SAME, frame_refl. }
+    destruct (Z.eq_dec (m_type m) 4) as [T|NT].
+    - destruct (known g (m_node m)) eqn:K.
+      + destruct (stream_input m) as [i|] eqn:IN.
+        * destruct (logic_stream_request orc clock g l m i C S D V T K IN)
+            as (g' & EL & S' & FW & AB & OT & (C1 & S1 & _) & _).
+          rewrite EL in E. destruct (offer_reply _ m _) as [rm|e]; cbn [bind] in E; [|discriminate].
+          inversion E; subst g1 r. split; [split; [exact S'|unfold ids_ok; rewrite S1; exact I]|].
+          split; [exact C1|]. split; [unfold known; rewrite S1; auto|]. split; [exact FW|].
+          intro n. destruct (Z.eq_dec n (m_node m)) as [->|DN].
+          -- exists i. split; [eapply stream_input_not_update; exact IN|exact AB].
+          -- exists Malformed. split; [reflexivity|]. apply OT. exact DN.
+        * rewrite (logic_stream_other orc clock g l m C D V T K IN) in E. inversion E; subst.
+          apply SAME, frame_refl.
+      + rewrite (logic_stream_unknown orc clock g l m C D V T K) in E. inversion E; subst.
+        apply SAME. destruct (cf_ge20 (g_cf g)); [apply frame_add_job|apply frame_refl].
+    - destruct (Z.eq_dec (m_type m) 0) as [T0|NT0].
+      + destruct (Z.eq_dec (m_child m) 255) as [CH|NCH].
+        * destruct (logic_node_presentation orc clock g l m C D V T0 CH) as (g' & EL & O & CF & KN & _ & F).
+          rewrite EL in E. inversion E; subst g1 r. destruct (F I) as (I' & _).
+          split; [split; [rewrite O; exact S|exact I']|]. split; [exact CF|]. split; [exact KN|].
+          split; [rewrite O; reflexivity|].
+          intro n. exists Malformed. rewrite O. split; reflexivity.
+        * apply SAME. eapply logic_other_frame; try eassumption. tauto.
+      + apply SAME. eapply logic_other_frame; try eassumption. tauto.
+  Qed.
+
+  (* the firmware dictionary after a step: unchanged, or the image of an effective update stored *)
+  Definition fw_after (g : gw) (o : op) (fws : list ((Z * Z) * fware)) : Prop :=
+    fws = o_fw (g_ota g) \/
+    exists ns tt vv b t v, o = UpdateFw ns tt vv (Some b) /\ update_key g tt vv (Some b) = Some (t, v) /\
+                           fws = fw_store t v (prepare_fw b) (o_fw (g_ota g)).
+
+  Theorem step_weak g o : cfg_ok (g_cf g) -> SInv g ->
+    SInv (step orc clock g o) /\ g_cf (step orc clock g o) = g_cf g /\
+    (forall n, known g n = true -> known (step orc clock g o) n = true) /\
+    fw_after g o (o_fw (g_ota (step orc clock g o))) /\
+    forall n, moved g o n (abs (g_ota g) n) (abs (g_ota (step orc clock g o)) n).
+  Proof.
+    intros C SI.
+    assert (SAME : forall g', frame g g' -> SInv g' /\ g_cf g' = g_cf g /\
+              (forall n, known g n = true -> known g' n = true) /\
+              fw_after g o (o_fw (g_ota g')) /\
+              forall n, moved g o n (abs (g_ota g) n) (abs (g_ota g') n)).
+    { intros g' F. split; [eapply SInv_frame; eassumption|].
+      destruct F as (O & CF & K & _). split; [exact CF|]. split; [exact K|].
+      split; [left; rewrite O; reflexivity|].
+      intro n. rewrite O. apply moved_same. }
+    destruct (line_of g o) as [l|] eqn:L.
+    - rewrite (step_line g o l L).
+      destruct (pre_state_frame g o) as [F0 S0].
+      pose proof (SInv_frame _ _ F0 SI) as SI0.
+      destruct F0 as (O0 & C0 & K0 & _).
+      assert (Cg0 : cfg_ok (g_cf (pre_state g o))) by (rewrite C0; exact C).
+      destruct (logic orc clock (pre_state g o) l) as [[g1 r]|e] eqn:E.
+      + destruct (logic_weak _ _ _ _ Cg0 SI0 E) as (SI1 & C1 & K1 & FW1 & MV).
+        assert (FS : frame g1 (match r with Some x => send g1 x | None => g1 end))
+          by (destruct r; [apply frame_send|apply frame_refl]).
+        destruct r as [x|].
+        * split; [eapply SInv_frame; eassumption|]. destruct FS as (O2 & C2 & K2 & _).
+          split; [congruence|]. split; [auto|]. split; [left; congruence|].
+          intro n. destruct (MV n) as (i & NU & AB). rewrite O2, AB, O0. eapply mv_request; [exact NU|reflexivity].
+        * split; [exact SI1|]. split; [congruence|]. split; [auto|]. split; [left; congruence|].
+          intro n. destruct (MV n) as (i & NU & AB). rewrite AB, O0. eapply mv_request; [exact NU|reflexivity].
+      + apply SAME. eapply frame_trans; [apply pre_state_frame|apply frame_emit].
+    - destruct o as [l0| |s c vt v mt a|ns t v b|b];
+        try (apply SAME; apply step_noline; [exact L|intros; discriminate]).
+      cbn [step]. destruct SI as [S I].
+      destruct (update_fw_spec g ns t v b S I) as (g' & E & S' & I' & CF & _ & _ & _ & _ & KN & SPEC).
+      rewrite E. split; [split; assumption|]. split; [exact CF|]. split; [intros n K; rewrite KN; exact K|].
+      destruct (update_key g t v b) as [[t0 v0]|] eqn:UK.
+      + destruct SPEC as (_ & _ & _ & _ & _ & FW & AB & _). split.
+        * destruct b as [b|]; [right; exists ns, t, v, b, t0, v0; auto|left; exact FW].
+        * intro n. rewrite AB.
+          destruct (zmem n ns) eqn:Z; cbn [andb]; [|apply moved_same].
+          destruct (known g n) eqn:K; [|apply moved_same].
+          eapply mv_update; [reflexivity|exact UK|exact Z|exact K|reflexivity].
+      + destruct SPEC as (SS & FW & _). split; [left; exact FW|].
+        intro n. rewrite (same_sessions_abs _ _ n SS). apply moved_same.
+  Qed.
+End Steps.
+
+(* ================================================================ K. histories *)
+
+Lemma key_of_request s i : is_update i = false -> key_of (fst (sstep s i)) = key_of s.
+Proof. destruct i as [k| |k b|]; [discriminate| | |]; intros _; destruct s; reflexivity. Qed.
+
+(* an image is stored for the key of every scheduled session *)
+Definition fw_avail (o : ota) : Prop :=
+  forall n t v, key_of (abs o n) = Some (t, v) -> exists f, fw_lookup t v (o_fw o) = Some f.
+
+Section Histories.
+  Variable orc : oracles.
+  Variable clock : Z.
+
+  Lemma run_snoc g ops o : run orc clock g (ops ++ [o]) = step orc clock (run orc clock g ops) o.
+  Proof. unfold run. rewrite fold_left_app. reflexivity. Qed.
+
+  Lemma run_app g a b : run orc clock g (a ++ b) = run orc clock (run orc clock g a) b.
+  Proof. unfold run. apply fold_left_app. Qed.
+
+  (* 1. the invariant of every reachable state: abs is well defined *)
+  Theorem run_SInv ops : forall g, cfg_ok (g_cf g) -> SInv g ->
+    SInv (run orc clock g ops) /\ g_cf (run orc clock g ops) = g_cf g.
+  Proof.
+    induction ops as [|o ops IH]; intros g C SI; [split; [exact SI|reflexivity]|].
+    destruct (step_weak orc clock g o C SI) as (SI1 & C1 & _).
+    change (run orc clock g (o :: ops)) with (run orc clock (step orc clock g o) ops).
+    destruct (IH (step orc clock g o)) as [SI2 C2]; [rewrite C1; exact C|exact SI1|].
+    split; [exact SI2|congruence].
+  Qed.
+
+  Corollary reachable_SInv cf ops : cfg_ok cf ->
+    SInv (run orc clock (gw_init cf) ops) /\ g_cf (run orc clock (gw_init cf) ops) = cf.
+  Proof. intro C. exact (run_SInv ops (gw_init cf) C (SInv_init cf)). Qed.
+
+  Lemma step_fw_avail g o : cfg_ok (g_cf g) -> SInv g -> fw_avail (g_ota g) ->
+    fw_avail (g_ota (step orc clock g o)).
+  Proof.
+    intros C SI FA. destruct (step_weak orc clock g o C SI) as (_ & _ & _ & FW & MV).
+    intros n t v KO. destruct (MV n) as [i NU AB|ns tt vv bin k EO UK Z K AB].
+    - rewrite AB, (key_of_request _ _ NU) in KO. destruct (FA n t v KO) as [f LK].
+      destruct FW as [-> |(ns & tt & vv & b & t0 & v0 & _ & _ & ->)]; [eauto|].
+      destruct (Z.eq_dec t t0) as [->|Dt]; [destruct (Z.eq_dec v v0) as [->|Dv]|].
+      + rewrite fw_lookup_store_same. eauto.
+      + rewrite fw_lookup_store_other by congruence. eauto.
+      + rewrite fw_lookup_store_other by congruence. eauto.
+    - rewrite AB in KO. cbn [key_of] in KO. inversion KO; subst k. subst o.
+      destruct SI as [S I].
+      destruct (update_fw_spec g ns tt vv bin S I) as (g' & E & _ & _ & _ & _ & _ & _ & _ & _ & SPEC).
+      cbn [step]. rewrite E. rewrite UK in SPEC. destruct SPEC as (_ & _ & _ & _ & AV & _). exact AV.
+  Qed.
+
+  Theorem reachable_fw_avail cf ops : cfg_ok cf -> fw_avail (g_ota (run orc clock (gw_init cf) ops)).
+  Proof.
+    intro C. induction ops as [|o ops IH] using rev_ind.
+    - intros n t v KO. discriminate KO.
+    - rewrite run_snoc. destruct (reachable_SInv cf ops C) as [SI CF].
+      apply step_fw_avail; [rewrite CF; exact C|exact SI|exact IH].
+  Qed.
+
+  (* 3. gated: a session that is not Idle was scheduled, with its key, by an earlier update
+     call that named the node while it was known, with type/version in range and firmware
+     available after the call *)
+  Theorem gated_history cf ops n k : cfg_ok cf ->
+    key_of (abs (g_ota (run orc clock (gw_init cf) ops)) n) = Some k ->
+    exists pre ns tt vv bin post,
+      ops = pre ++ UpdateFw ns tt vv bin :: post /\
+      update_key (run orc clock (gw_init cf) pre) tt vv bin = Some k /\
+      zmem n ns = true /\ known (run orc clock (gw_init cf) pre) n = true.
+  Proof.
+    intro C. induction ops as [|o ops IH] using rev_ind; [discriminate|].
+    rewrite run_snoc. destruct (reachable_SInv cf ops C) as [SI CF].
+    assert (Cg : cfg_ok (g_cf (run orc clock (gw_init cf) ops))) by (rewrite CF; exact C).
+    destruct (step_weak orc clock _ o Cg SI) as (_ & _ & _ & _ & MV).
+    destruct (MV n) as [i NU AB|ns tt vv bin k' EO UK Z K AB]; intro KO.
+    - rewrite AB, (key_of_request _ _ NU) in KO.
+      destruct (IH KO) as (pre & ns & tt & vv & bin & post & E & REST).
+      exists pre, ns, tt, vv, bin, (post ++ [o]). split; [|exact REST].
+      rewrite E, <- app_assoc. reflexivity.
+    - rewrite AB in KO. cbn [key_of] in KO. inversion KO; subst k'.
+      exists ops, ns, tt, vv, bin, []. subst o. auto.
+  Qed.
+
+  (* what an effective update call means (the conditions of the property) *)
+  Lemma update_key_sound g tt vv bin t v : update_key g tt vv bin = Some (t, v) ->
+    vt_int tt = Some t /\ vt_int vv = Some v /\ 0 <= t <= 65535 /\ 0 <= v <= 65535 /\
+    ((exists b0 br, bin = Some (b0 :: br)) \/
+     (bin = None /\ exists f, fw_lookup t v (o_fw (g_ota g)) = Some f)).
+  Proof.
+    unfold update_key. destruct (vt_int tt) as [t0|]; [|discriminate].
+    destruct (vt_int vv) as [v0|]; [|discriminate].
+    destruct (word_ok t0 && word_ok v0) eqn:W; [|discriminate].
+    apply andb_true_iff in W as [Wt Wv]. apply word_ok_iff in Wt, Wv.
+    destruct bin as [[|b0 br]|]; [discriminate| |].
+    - intro H; inversion H; subst. repeat split; try assumption; try lia. left. eauto.
+    - destruct (fw_lookup t0 v0 (o_fw (g_ota g))) as [f|] eqn:L; [|discriminate].
+      intro H; inversion H; subst. repeat split; try assumption; try lia. right. eauto.
+  Qed.
+End Histories.
+
+(* ================================================================ L. the reboot window *)
+Section Reboot.
+  Variable orc : oracles.
+  Variable clock : Z.
+
+  (* does this step run the dispatcher on an accepted node presentation (child 255) of node n? *)
+  Definition presents (g : gw) (o : op) (n : Z) : bool :=
+    match line_of g o with
+    | Some l => match decode l with
+                | Some m => gvalidate orc g m && (m_type m =? 0) && (m_child m =? 255) && (m_node m =? n)
+                | None => false
+                end
+    | None => false
+    end.
+  (* is this step an update call that schedules node n (named, known, effective)? with which key? *)
+  Definition schedules (g : gw) (o : op) (n : Z) : option fwkey :=
+    match o with
+    | UpdateFw ns tt vv bin => if zmem n ns && known g n then update_key g tt vv bin else None
+    | _ => None
+    end.
+
+  Lemma nframe_flags g g' n : nframe g g' -> ids_ok g -> reboot_flag g' n = reboot_flag g n.
+  Proof. intros (_ & _ & F) I. apply F. exact I. Qed.
+
+  Lemma logic_stream_nframe g l m g1 r :
+    cfg_ok (g_cf g) -> sess_inv (g_ota g) -> decode l = Some m -> gvalidate orc g m = true -> m_type m = 4 ->
+    logic orc clock g l = Ok (g1, r) -> nframe g g1.
+  Proof.
+    intros C S D V T E.
+    destruct (known g (m_node m)) eqn:K.
+    - destruct (stream_input m) as [i|] eqn:IN.
+      + destruct (logic_stream_request orc clock g l m i C S D V T K IN)
+          as (g' & EL & _ & _ & _ & _ & (C1 & S1 & _) & _).
+        rewrite EL in E. destruct (offer_reply _ m _) as [rm|e]; cbn [bind] in E; [|discriminate].
+        inversion E; subst g1 r. apply nframe_same; assumption.
+      + rewrite (logic_stream_other orc clock g l m C D V T K IN) in E. inversion E; subst. apply nframe_refl.
+    - rewrite (logic_stream_unknown orc clock g l m C D V T K) in E. inversion E; subst.
+      destruct (cf_ge20 (g_cf g)); [apply frame_add_job|apply nframe_refl].
+  Qed.
+
+  Lemma pre_state_facts g o :
+    g_sensors (pre_state g o) = g_sensors g /\ g_ota (pre_state g o) = g_ota g /\
+    g_cf (pre_state g o) = g_cf g /\ forall m, gvalidate orc (pre_state g o) m = gvalidate orc g m.
+  Proof. destruct o; repeat split; reflexivity. Qed.
+
+  (* 5. the flag after a step, exactly: set by a scheduling update call, cleared by a node
+     presentation, untouched by everything else *)
+  Theorem reboot_flag_step g o n : cfg_ok (g_cf g) -> SInv g ->
+    reboot_flag (step orc clock g o) n =
+      match schedules g o n with
+      | Some _ => true
+      | None => if presents g o n then false else reboot_flag g n
+      end.
+  Proof.
+    intros C [S I]. unfold presents.
+    destruct (line_of g o) as [l|] eqn:L.
+    - assert (SC : schedules g o n = None) by (destruct o; try reflexivity; discriminate L). rewrite SC.
+      rewrite (step_line orc clock g o l L).
+      destruct (pre_state_facts g o) as (PS & PO & PC & PV).
+      set (g0 := pre_state g o) in *.
+      assert (C0 : cfg_ok (g_cf g0)) by (rewrite PC; exact C).
+      assert (S0 : sess_inv (g_ota g0)) by (rewrite PO; exact S).
+      assert (I0 : ids_ok g0) by (unfold ids_ok; rewrite PS; exact I).
+      assert (R0 : forall k, reboot_flag g0 k = reboot_flag g k) by (intro k; unfold reboot_flag, get_node; rewrite PS; reflexivity).
+      assert (SAME : forall g1 r, nframe g0 g1 ->
+                reboot_flag (match r with Some x => send g1 x | None => g1 end) n = reboot_flag g n).
+      { intros g1 r F. rewrite <- R0, <- (nframe_flags g0 g1 n F I0).
+        destruct r; [|reflexivity]. destruct (frame_send g1 p) as [_ F2].
+        apply (nframe_flags _ _ n F2). destruct F as (_ & _ & F). apply F. exact I0. }
+      destruct (decode l) as [m|] eqn:D.
+      2:{ rewrite (rejected_is_noop orc clock g0 l (or_introl D)). apply R0. }
+      rewrite <- PV.
+      destruct (gvalidate orc g0 m) eqn:V; cbn [andb].
+      2:{ rewrite (rejected_is_noop orc clock g0 l) by (right; exists m; auto). apply R0. }
+      destruct (Z.eqb_spec (m_type m) 0) as [T0|NT0]; cbn [andb].
+      + destruct (Z.eqb_spec (m_child m) 255) as [CH|NCH]; cbn [andb].
+        * destruct (logic_node_presentation orc clock g0 l m C0 D V T0 CH) as (g' & EL & _ & _ & _ & _ & F).
+          rewrite EL. destruct (F I0) as (_ & RF & RO).
+          destruct (Z.eqb_spec (m_node m) n) as [<-|DN]; [exact RF|].
+          rewrite RO by congruence. apply R0.
+        * destruct (logic orc clock g0 l) as [[g1 r]|e] eqn:E; [|rewrite <- R0; reflexivity].
+          apply SAME. eapply logic_other_frame; try eassumption; [lia|tauto].
+      + destruct (logic orc clock g0 l) as [[g1 r]|e] eqn:E; [|rewrite <- R0; reflexivity].
+        apply SAME. destruct (Z.eq_dec (m_type m) 4) as [T4|NT4].
+        * eapply logic_stream_nframe; eassumption.
+        * eapply logic_other_frame; try eassumption. tauto.
+    - destruct o as [l0| |s c vt v mt a|ns t v b|b];
+        try (cbn [schedules]; apply nframe_flags; [|exact I];
+             apply (step_noline orc clock); [exact L|intros; discriminate]).
+      cbn [step schedules].
+      destruct (update_fw_spec g ns t v b S I) as (g' & E & _ & _ & _ & _ & _ & _ & _ & _ & SPEC).
+      rewrite E. destruct (update_key g t v b) as [[t0 v0]|] eqn:UK.
+      + destruct SPEC as (_ & _ & _ & _ & _ & _ & _ & RF). rewrite RF.
+        destruct (zmem n ns && known g n); reflexivity.
+      + destruct SPEC as (_ & _ & SS). unfold reboot_flag, get_node. rewrite SS.
+        destruct (zmem n ns && known g n); reflexivity.
+  Qed.
+End Reboot.
